@@ -47,6 +47,7 @@ type source struct {
 	keepLog  bool
 	written  func() int // bytes received by the prefix writer so far
 	call     int        // index of the call in progress (set by runStream)
+	finalAt  int        // index of the call during which the end of the stream was first signalled (-1: not yet)
 	hung     bool
 }
 
@@ -57,7 +58,7 @@ func newSource(data []byte, plan []int, dflt int, final error, withData bool) *s
 	if final == nil {
 		final = io.EOF
 	}
-	return &source{data: data, plan: plan, dflt: dflt, final: final, withData: withData,
+	return &source{data: data, plan: plan, dflt: dflt, final: final, withData: withData, finalAt: -1,
 		budget: 4*len(data) + 100*len(plan) + 1000}
 }
 
@@ -75,6 +76,9 @@ func (s *source) Read(p []byte) (int, error) {
 	}
 	ev := readEvent{Offered: len(p), Written: w, Call: s.call}
 	n, err := s.read(p)
+	if err != nil && s.finalAt < 0 {
+		s.finalAt = s.call
+	}
 	ev.N = n
 	if err == io.EOF {
 		ev.Err = "eof"
